@@ -405,6 +405,11 @@ class Spectrum:
             spectrum = self.copy()
             spectrum.to(waveunit)
 
+        # a two-element fill_value means (below, above); interp1d only treats a
+        # tuple that way
+        if np.ndim(fill_value) == 1 and np.size(fill_value) == 2:
+            fill_value = tuple(fill_value)
+
         interp = scipy.interpolate.interp1d(spectrum.wave, spectrum.value, kind=method,
                                             copy=False, bounds_error=False,
                                             fill_value=fill_value)
@@ -929,8 +934,9 @@ def _interp_common(s1, s2, sampling, method, fill_value):
                                waveunit=s2.waveunit)
 
     # create nominal value arrays
-    s1_value = fill_value * np.ones(commonwave.shape)
-    s2_value = fill_value * np.ones(commonwave.shape)
+    fill_below, fill_above = np.broadcast_to(fill_value, (2,))
+    s1_value = np.where(commonwave < s1.wave.min(), fill_below, fill_above).astype(float)
+    s2_value = np.where(commonwave < s2.wave.min(), fill_below, fill_above).astype(float)
 
     # insert the sampled values into the appropriate slots
     s1_value[s1_index] = s1_samplevalue
